@@ -16,7 +16,7 @@ use uom::si::time::second;
 pub fn def() -> PropDef {
     PropDef {
         id: "C09",
-        rule: "inputs: (1) junk bank lists (0-40 banks; valid names of every kind, near-valid and random names; random bytes or valid packets of another kind); (2) realistic hit-pattern events (correlated wire pulses + 3-row pad clusters rendered with the shipped response functions, induction, integer noise) and forward-model annihilation events; (3) the same events re-encoded with valid CRCs/baselines after extreme edits: any wire sample to i16::MIN/MAX/ADC limits, any pad sample to i16::MIN/MAX/-2048/2047, wire waveforms of 64..703 (thorough: 65533) samples, pad requested_samples 0/1/100/101/511 for the whole event or for single chips (pads of one column then have waveforms of different lengths), a message with all 79 channels (incl. FPN/reset), the full ring of 256 wires, one contiguous wire block of every length 1..=256 (plus a second block), 16-byte suppressed packets, header fields the reconstruction does not read set to other valid values in half of the events (PWB threshold mask different from the sent mask, counters, timestamps, FIFO depths, ADC / TRG counters), duplicated/dropped/renamed/foreign/corrupted banks, run numbers of every calibration era, any bank order; oracle: try_from_banks returns, and for every Ok event timestamp(), avalanches() and vertex() return (catch_unwind, builds with and without overflow checks), every avalanche has finite t/phi/z and finite positive amplitudes, a vertex is finite; non-trivial = build succeeded with >= 1 avalanche, or was rejected by a rule other than the bank-name grammar; distinct by bank-list hash",
+        rule: "inputs: (1) junk bank lists (0-40 banks; valid names of every kind, near-valid and random names; random bytes or valid packets of another kind); (2) realistic hit-pattern events (correlated wire pulses + 3-row pad clusters rendered with the shipped response functions, induction, integer noise; lone pads preferring the first and last two pad rows and the column facing a wire hit) and forward-model annihilation events; (3) the same events re-encoded with valid CRCs/baselines after extreme edits: any wire sample to i16::MIN/MAX/ADC limits, any pad sample to i16::MIN/MAX/-2048/2047, wire waveforms of 64..703 (thorough: 65533) samples, pad requested_samples 0/1/100/101/511 for the whole event or for single chips (pads of one column then have waveforms of different lengths), a message with all 79 channels (incl. FPN/reset), the full ring of 256 wires, one contiguous wire block of every length 1..=256 (plus a second block), 16-byte suppressed packets, header fields the reconstruction does not read set to other valid values in half of the events (PWB threshold mask different from the sent mask, counters, timestamps, FIFO depths, ADC / TRG counters), duplicated/dropped/renamed/foreign/corrupted banks, run numbers of every calibration era, any bank order; oracle: try_from_banks returns, and for every Ok event timestamp(), avalanches() and vertex() return (catch_unwind, builds with and without overflow checks), every avalanche has finite t/phi/z and finite positive amplitudes, a vertex is finite; non-trivial = build succeeded with >= 1 avalanche, or was rejected by a rule other than the bank-name grammar; distinct by bank-list hash",
         assumptions: &["stack overflow / abort are not observable through catch_unwind; they would end the check with exit 2"],
         run,
         replay,
